@@ -326,7 +326,7 @@ pub fn band_lag(len: usize, beyond: bool) -> (i32, bool) {
     kani::cover!(!beyond || n < 0, "beyond: n < -len");
     kani::cover!(!beyond || n > 0, "beyond: n > len");
     kani::cover!(beyond || n == 0, "within: n == 0");
-    (n, if len >= 2 { na > 0 && na < len } else { true })
+    (n, if beyond { true } else if len >= 2 { na > 0 && na < len } else { true })
 }
 
 pub fn full_lag(len: usize) -> (i32, bool) {
